@@ -1,8 +1,29 @@
 META = {
-    "assumptions": ["allocation failure out of scope (--no-malloc-may-fail)"],
-    "outside": ["everything that moves data: blocks_to_move, block_mover, inode_scan_and_fix, inode_ref_fix, move_itables, "
-                "fix_resize_inode, orphan file, journal backup (stubbed in errflag; their effect on files is not examined)",
-                "file preservation (path, content, attributes) and e2fsck-consistency of the result: whole tool"],
+    "assumptions": ["allocation failure out of scope (--no-malloc-may-fail)",
+                    "errflag: the disk is modelled as one word (s_state of the on-disk primary superblock), rewritten exactly when ext2fs_flush / "
+                    "a dirty ext2fs_close_free would rewrite the primary superblock; every stage of resize_fs is a stub with a symbolic return code",
+                    "extent: callers add each old location once and (for the 62-bit configurations) in ascending order, as block_mover and "
+                    "inode_scan_and_fix do; qsort replaced by an insertion sort driven by the real comparator",
+                    "newsize: ext2fs_bg_has_super cut to the on-disk format rule (the real function is decided against it in C20/bg_has_super; "
+                    "thorough-tier harness newsize_real links the real one for sizes < 2^24); blocks per group a power of two",
+                    "gdconv: consistent old file system for the accessor-level claim (locations below the block count, counters < 2^16)"],
+    "outside": ["THIS IS A THIN SLICE: no harness moves a block or an inode. File preservation (path, content, attributes) and "
+                "e2fsck-consistency of the resized file system are whole-tool statements and are not decided",
+                "every stage behind the stubs of errflag: blocks_to_move, block_mover, inode_scan_and_fix (block remapping through extents / "
+                "indirect blocks / xattr blocks, inode renumbering), inode_ref_fix (directory entries), fix_ea_inode_refs, move_itables, "
+                "move_bg_metadata, zero_high_bits_in_inodes, fix_resize_inode, fix_orphan_file_inode, fix_sb_journal_backup, "
+                "resize2fs_calculate_summary_stats, clear/reserve_sparse_super2_last_group, fix_uninit_block_bitmaps",
+                "crash points INSIDE a stage (e.g. between the copy of a block and the rewrite of its reference) and the order of data writes "
+                "against io_channel_flush; errflag covers only the marker protocol around the stages",
+                "resize/main.c: the 'Please run e2fsck -f first' precondition, size parsing, device-size and 32-bit limits, -M, online resize "
+                "(online.c), the close of the caller's handle after a failed run; 'a refused request changes nothing' is decided only for "
+                "refusals inside resize_fs before its first write and inside resize_group_descriptors",
+                "calculate_minimum_resize_size (-M / -P), the rest of adjust_fs_info behind its first bitmap call (bitmap resizing, new group "
+                "initialisation, sparse_super2 backup bookkeeping, reserved-blocks percentage in floating point), adjust_superblock's inode-table zeroing",
+                "ext2fs_flush2 / ext2fs_close2 themselves (C20 decides backup placement and 'primary superblock last'), ext2fs_allocate_group_table "
+                "(C07), ext2fs_create_resize_inode (res_gdt.c), bigalloc cluster arithmetic (extent_translate with cluster ratio > 1)",
+                "extent tables of more than 4 runs; unsorted tables with locations >= 2^31 (see the extent_cmp note in the report); "
+                "block sizes other than 1 KiB / 4 KiB and blocks-per-group other than 8192 / 32768 in newsize; more than 17 groups in gdconv"],
 }
 
 RESIZE_STAGES = ["fix_uninit_block_bitmaps", "resize_group_descriptors", "move_bg_metadata", "zero_high_bits_in_inodes",
@@ -27,17 +48,21 @@ HARNESSES = [
          bound="all original s_state values, all fault schedules of the 20 stages (symbolic return code each), "
                "all choices of move_itables' intermediate flushes; geometry fixed (irrelevant to the protocol)"),
     dict(name="extent", src="extent.c",
-         funcs=["ext2fs_add_extent_entry", "ext2fs_extent_translate", "extent_cmp", "ext2fs_create_extent_table",
+         funcs=["ext2fs_add_extent_entry", "ext2fs_extent_translate", "ext2fs_create_extent_table",
                 "ext2fs_iterate_extent", "ext2fs_free_extent_table"],
          configs=[{"OP": 4, "NH": 2}] +
                  [{"OP": 1, "NENT": 2, "NUM": n} for n in (0, 1, 2)] +
                  [{"OP": 2, "NENT": 2, "NUM": n} for n in (1, 2, 3)] +
-                 [{"OP": 2, "NENT": 3, "NUM": 4, "_tier": "thorough"}] +
-                 [{"OP": 3, "NENT": 2, "NUM": n, "LOCBITS": 31} for n in (2, 3)] +
+                 [{"OP": 2, "NENT": 3, "NUM": 4, "_tier": "thorough"}],
+         unwind=6, backends=["default", "kissat", "z3"], witness_per_config=True,
+         bound="table of <= 3 runs (thorough: 4), locations/lengths < 2^62; probe address: all 2^64 values; "
+               "history: capacity-1 table, 2 ascending adds (growth), translate, iterate"),
+    dict(name="extent_sort", src="extent.c",
+         funcs=["ext2fs_extent_translate", "extent_cmp"],
+         configs=[{"OP": 3, "NENT": 2, "NUM": n, "LOCBITS": 31} for n in (2, 3)] +
                  [{"OP": 5, "LOCBITS": 31}],
          unwind=6, backends=["default", "kissat", "z3"], witness_per_config=True,
-         bound="table of <= 4 runs, locations/lengths < 2^62 (sorted table, add) or < 2^31 (paths through the qsort comparator); "
-               "probe address: all 2^64 values"),
+         bound="unsorted table of 2..3 runs, locations/lengths < 2^31 (extent_cmp returns the 64-bit difference as int); probe: all 2^64 values"),
     dict(name="newsize", src="newsize.c",
          funcs=["adjust_new_size", "adjust_fs_info"],
          extra_src=["lib/ext2fs/blknum.c"],
@@ -74,6 +99,12 @@ HARNESSES = [
                "size, requested size, flags, reserved GDT count symbolic"),
 ]
 MANIFEST = {
-    "text": "Bounded-exhaustive within each harness's stated bounds.",
-    "note": "Trusted: CBMC's C semantics, the stage stubs' stated side effects.",
+    "text": "Bounded-exhaustive model checking (CBMC) of four kernels of resize2fs compiled from the real sources: the error-flag "
+            "protocol of resize_fs() under every fault schedule of its stages, the relocation table (add / translate / sort / iterate), "
+            "the size resize2fs settles on (adjust_new_size vs adjust_fs_info vs the format rules, every size below 2^32 / 2^36) and the "
+            "32/64-bit group descriptor conversion. Within each harness's stated bounds the verdict covers every value. This is a thin "
+            "slice of C08: nothing that moves file data is decided.",
+    "note": "Trusted: CBMC's C semantics (incl. its float model for the interpolation search), the stage stubs of errflag and their "
+            "stated side effects, the harness's restatement of the on-disk format. Query errflag[FLUSH_FAULT] fails on the unchanged tree "
+            "(resize_fs ignores the result of the ext2fs_flush that makes the error flag durable); see known_findings.",
 }
